@@ -35,7 +35,7 @@ def run(ctx):
         del ctx.violations[key]
     ctx.cov['per_message'] = depths
     ctx.cov['distinct_nontrivial'] = ctx.cov['states']
-    ctx.cov['rule'] = ('states = distinct (reference-model state, stored-key structure) pairs reached by BFS over the operation '
+    ctx.cov['rule'] = ('states = distinct (reference-model state, stored keys and values) pairs reached by BFS over the operation '
                        'alphabet on each zoo message; transitions = (state, operation) pairs, each executed on a fresh real '
                        'object by replaying the history, sparse, dense and with the operated-on object fetched before the '
                        'message is read again (held handle); every transition compares outcome class, '
